@@ -254,6 +254,7 @@ def check(ctx, fx):
     ctx.floor("M4", n4, 3, "shortcut classifications in compile")
 
     # ---- M3 -----------------------------------------------------------------------
+    strip_counts = {}
     t = fx.fn1("%s::test" % PAT)
     m = fx.fn1("%s::match" % PAT)
     for f, nomatch in ((t, "false"), (m, "std::nullopt")):
@@ -286,6 +287,7 @@ def check(ctx, fx):
                   "%s has %d exits guarded by a failed process/parse (expected 3)" % (nm, nfail))
         # (c) delimiter stripping
         strips = set()
+        strip_sites = strip_counts.setdefault(nm, [])
         for nd, s, b in C.all_nodes(f):
             if nd.get("k") == "call" and nd.get("name") in ("starts_with", "ends_with") and nd.get("args"):
                 a = X.strip(nd["args"][0])
@@ -297,15 +299,25 @@ def check(ctx, fx):
                 ws = set(S.names_in(nd.get("recv"), S.COMPONENTS, S.local_defs_of(f)))
                 for w in ws:
                     strips.add((w, lit))
+                    if nd.get("macros") is None and not any(m.startswith("ADA_ASSERT") for m in (s.get("macros") or [])):
+                        strip_sites.append((w, lit))
             if nd.get("k") == "call" and nd.get("name") == "substr" and len(nd.get("args", [])) == 2:
                 ws = set(S.names_in(nd.get("recv"), S.COMPONENTS))
                 if X.const_val(nd["args"][0]) == 0 and "size() - 1" in X.show(nd["args"][1]):
                     for w in ws:
                         strips.add((w, ":"))
+                        strip_sites.append((w, ":"))
         for (w, lit) in (("protocol", ":"), ("search", "?"), ("hash", "#")):
             ctx.check("M3", "%s strips '%s' from %s" % (nm, lit, w), (w, lit) in strips, "present",
                       "%s does not strip the %r delimiter from %s (found: %s)" % (nm, lit, w, sorted(strips, key=str)),
                       where=f["loc"].replace("/repo/", ""))
+    import collections
+    ct, cm = collections.Counter(strip_counts.get("test", [])), collections.Counter(strip_counts.get("match", []))
+    ctx.check("M3", "test and match strip the same delimiters the same number of times (dictionary and URL-string inputs)",
+              ct == cm, ", ".join("%s%s x%d" % (w, l, k) for (w, l), k in sorted(ct.items(), key=str)),
+              "test() strips %s but match() strips %s: for the input form where they differ the two entry points hand different "
+              "component strings to the matcher" % (sorted(ct.items(), key=str), sorted(cm.items(), key=str)),
+              where=t["loc"].replace("/repo/", ""))
 
 
 def mode_table(f, test):
